@@ -131,6 +131,10 @@ def _dict_to_obj(tpm_type, dict_obj: dict[str, any], command_code=None):
 def _to_obj(tpm_type, value, command_code=None):
     """If value is dict, tpm_type is the type it should be converted to."""
     if isinstance(value, dict):
+        if not value and (hasattr(tpm_type, "_selected_by") or fields(tpm_type)):
+            # nothing below a union (member without payload) or a structure with fields
+            # (empty TPM2B payload): the part is absent, like in the object from marshalling
+            return None
         return _dict_to_obj(tpm_type, value, command_code=command_code)
     elif isinstance(value, list):
         return _list_to_obj(tpm_type, value)
